@@ -30,8 +30,11 @@ def main():
         for sid, r in ex.map(one, ids):
             d = results.setdefault(sid, {})
             for p, v in r.items():
-                d[p] = dict(detected=bool(v["violations"]), rc=v["rc"], first=(v["violations"] or [""])[0], wall=v["wall"], tier=tier)
+                d[p] = dict(detected=bool(v["violations"]), rc=v["rc"], first=(v["violations"] or [""])[0], note=(v.get("notes") or [""])[0], wall=v["wall"], tier=tier)
             resf.write_text(json.dumps(results, indent=1, sort_keys=True))
+    # seed runs regenerate lean/CollectionsC/Generated from their scratch worktree: put /repo's text back
+    import vlib
+    vlib.build_lean()
     for sid in ids:
         print(sid, {p: ("DETECTED" if v["detected"] else f"missed(rc={v['rc']})") for p, v in results.get(sid, {}).items()})
 
